@@ -50,8 +50,13 @@ def recv_m(res, n, socket=0, remote=1):
     return arr(res, 10 * n) + f"recv_epr({remote},{socket}) C0 {res}\n"
 
 
-def create(res, qa, qids, args, tp, n, socket=0, remote=1):
-    s = arr(res, 10 * n) + arr(args, 20) + stores(args, [tp, n])
+def create(res, qa, qids, args, tp, n, socket=0, remote=1, opts=None):
+    # opts: the request's other link-layer options by slot (6 max_time, 7 priority, 8 atomic, 9 consecutive): none of them
+    # changes which request a response belongs to
+    vals = [tp, n] + [None] * 8
+    for slot, v in (opts or {}).items():
+        vals[slot] = v
+    s = arr(res, 10 * n) + arr(args, 20) + stores(args, vals)
     if tp == 0:
         s += arr(qa, n) + stores(qa, qids) + f"create_epr({remote},{socket}) {qa} {args} {res}\n"
     else:
@@ -126,9 +131,15 @@ def scenarios():
               "streams": [{"key": [1, 0, "recv"], "responses": M(2)}, {"key": [1, 1, "recv"], "responses": K(1)}]})
     # 11. create and receive keep on the same socket, three requests outstanding
     S.append({"name": "three-outstanding-mixed", "apps": [{"app": 0, "unit": 4, "text":
-              create(0, 1, [0], 2, 0, 1) + recv_k(3, 4, [1, 2]) + create(5, 6, [3], 7, 0, 1) + wall(5, 1) + wall(3, 2) + wall(0, 1)}],
+              create(0, 1, [0], 2, 0, 1) + recv_k(3, 4, [1, 2]) + create(5, 6, [3], 7, 0, 1, opts={7: 3, 9: 1}) + wall(5, 1) + wall(3, 2) + wall(0, 1)}],
               "requests": [req(0, "create", "K", 1, 0, [0]), req(0, "recv", "K", 2, 3, [1, 2]), req(0, "create", "K", 1, 5, [3])],
               "streams": [{"key": [1, 0, "create"], "responses": K(2, [1, 2])}, {"key": [1, 0, "recv"], "responses": K(2)}]})
+    # 11b. a repeater node: one local socket id towards two remote nodes (each its own purpose id at the network stack)
+    S.append({"name": "same-socket-id-two-remotes", "purpose_map": [[1, 0, 11], [2, 0, 22]], "apps": [{"app": 0, "unit": 3, "text":
+              recv_k(0, 1, [0], remote=1) + recv_k(3, 4, [1], remote=2) + create(6, 7, [2], 8, 0, 1, remote=2) + wall(3, 1) + wall(0, 1) + wall(6, 1)}],
+              "requests": [req(0, "recv", "K", 1, 0, [0], remote=1), req(0, "recv", "K", 1, 3, [1], remote=2), req(0, "create", "K", 1, 6, [2], remote=2)],
+              "streams": [{"key": [1, 0, "recv"], "responses": K(1)}, {"key": [2, 0, "recv"], "responses": K(1, [1])},
+                          {"key": [2, 0, "create"], "responses": K(1, [2])}]})
     # 12. create requests whose result arrays are larger than their number of pairs needs (hand-written subroutine)
     S.append({"name": "create-oversized-result-arrays", "apps": [{"app": 0, "unit": 3, "text":
               arr(0, 30) + arr(2, 20) + stores(2, [0, 1]) + arr(1, 1) + stores(1, [0]) + "create_epr(1,0) 1 2 0\n" +
@@ -270,7 +281,8 @@ def gen_scenario(rng):
         reqs = []
         for _ in per_app[ai]:
             key = (rng.choice(remotes), rng.choice(sockets), rng.choice(["create", "recv"]))
-            reqs.append({"key": key, "tp": rng.choice("KM"), "n": rng.choice([1, 1, 2, 3])})
+            opts = {slot: rng.randrange(top) for slot, top in ((6, 50), (7, 4), (8, 2), (9, 2)) if rng.random() < 0.5}
+            reqs.append({"key": key, "tp": rng.choice("KM"), "n": rng.choice([1, 1, 2, 3]), "opts": opts if rng.random() < 0.6 else None})
         plans.append(reqs)
     users = {}
     for ai, reqs in enumerate(plans):
@@ -298,7 +310,7 @@ def gen_scenario(rng):
             if role == "recv":
                 t = recv_k(res, qa, qids, socket=socket, remote=remote) if r["tp"] == "K" else recv_m(res, r["n"], socket=socket, remote=remote)
             else:
-                t = create(res, qa, qids, args, 0 if r["tp"] == "K" else 1, r["n"], socket=socket, remote=remote)
+                t = create(res, qa, qids, args, 0 if r["tp"] == "K" else 1, r["n"], socket=socket, remote=remote, opts=r["opts"])
             text_req.append(t)
             waits.append(wall(res, r["n"]))
             requests.append(req(ai, role, r["tp"], r["n"], res, qids, socket=socket, remote=remote))
@@ -332,6 +344,8 @@ def gen_scenario(rng):
                     resp += K(r["n"], [rng.randrange(4) for _ in range(r["n"])]) if r["tp"] == "K" else M(r["n"])
         streams.append({"key": list(key), "responses": resp})
     sc = {"name": "generated", "apps": apps, "requests": requests, "streams": streams, "qlink10": rng.random() < 0.15}
+    if len(remotes) == 2 and rng.random() < 0.6:
+        sc["purpose_map"] = [[r_, s_, 10 * r_ + s_ + 3] for r_ in remotes for s_ in sockets]
     if rng.random() < 0.15 and all(r["kind"] == "M" for s_ in streams for r in s_["responses"]):
         sc["unnumbered"] = True
         for s_ in streams:
